@@ -143,7 +143,7 @@ impl std::fmt::Display for LintError {
                         "+"
                     }
                 },
-                i.abs()
+                i.unsigned_abs()
             ),
             LintError::OverwriteCalleeSavedRegister(_) => {
                 write!(f, "Overwriting callee-saved register")
@@ -162,7 +162,7 @@ impl std::fmt::Display for LintError {
                             "+"
                         }
                     },
-                    i.abs()
+                    i.unsigned_abs()
                 )
             }
             LintError::NodeInManyFunctions(_node, funcs) => {
